@@ -176,9 +176,9 @@ func guarded(f func()) (outcome string, detail string) {
 }
 
 // runWriter streams one top-level event through the real jsonStreamer
-func runWriter(e *Ev) (out []byte, outcome, detail string) {
+func runWriter(e *Ev, hint int) (out []byte, outcome, detail string) {
 	buf := &bytes.Buffer{}
-	outcome, detail = guarded(func() { play(e, serialization.NewJsonStreamer(buf)) })
+	outcome, detail = guarded(func() { playH(e, serialization.NewJsonStreamer(buf), hint) })
 	return buf.Bytes(), outcome, detail
 }
 
